@@ -715,5 +715,117 @@ class KeyLemmas(Case):
         return [("hash_key_injective", asm, z3.And(s1 == s2, p1 == p2, t1 == t2))]
 
 
+class CollectEndToEnd(Case):
+    """bounded: a run of the real stream front ends collected by the real collect_results, on concrete
+    tables whose rows are labelled in different ways (default index, permuted integers, offset labels)
+    with two disjoint windows and an unwindowed context: every covered row carries the flag the direct
+    call on its window produces, uncovered rows are masked (list) / UNKNOWN (dict), the collected data
+    and time equal the source on covered rows, and the list and dict forms agree"""
+
+    is_bounded = True
+    module = "ioos_qc.results"
+    function = "collect_results"
+    default_props = {}
+    props = {"bounded.collected_run": ("C06",)}
+
+    def all_props(self):
+        return {"C06"}
+
+    TABLES = {
+        "six": ([1.0, 20.0, 3.0, 40.0, 5.0, 60.0], [0, 10, 20, 30, 40, 50]),
+        "gap": ([7.0, None, 9.0, 70.0, 2.0], [0, 10, 20, 30, 40]),
+    }
+    WINDOWS = {"two": [(0, 20), (30, 50)], "one-late": [(20, 45)], "touching": [(0, 30), (30, 60)]}
+
+    def one(self, values):
+        import logging
+        import warnings
+
+        import numpy as np
+        import pandas as pd
+
+        from pyvc import replay
+
+        cfgm, stm, rsm, qm = (replay.real_module(m) for m in ("ioos_qc.config", "ioos_qc.streams", "ioos_qc.results", "ioos_qc.qartod"))
+        vals, secs = self.TABLES[values["table"]]
+        n = len(vals)
+        v = np.array([np.nan if x is None else x for x in vals], dtype="float64")
+        t = np.array([s_ * 10**9 for s_ in secs], dtype="datetime64[ns]")
+        wins = self.WINDOWS[values["windows"]]
+        span = {"fail_span": [0, 50], "suspect_span": [2, 30]}
+        ts = lambda s_: str(np.datetime64(s_, "s"))  # noqa: E731
+        ctxs = [{"window": {"starting": ts(a), "ending": ts(b)}, "streams": {"v": {"qartod": {"gross_range_test": span}}}} for a, b in wins]
+        config = cfgm.Config({"contexts": ctxs})
+        front, index = values["front"], values["index"]
+        logging.disable(logging.CRITICAL)
+        try:
+            with warnings.catch_warnings():
+                warnings.simplefilter("ignore")
+                if front == "numpy":
+                    st = stm.NumpyStream(inp=v.copy(), time=t.copy(), z=np.full(n, 1.5), lat=np.full(n, 2.5), lon=np.full(n, 3.5))
+                else:
+                    df = pd.DataFrame({"time": t, "v": v, "z": 1.5, "lat": 2.5, "lon": 3.5})
+                    if index == "permuted":
+                        df = df.set_axis([(3 * i + 2) % n for i in range(n)]) if n % 3 else df.set_axis(list(range(n - 1, -1, -1)))
+                    elif index == "offset":
+                        df = df.set_axis([100 - 7 * i for i in range(n)])
+                    st = stm.PandasStream(df)
+                runs = list(st.run(config))
+                lst = rsm.collect_results(runs, how="list")
+                dct = rsm.collect_results(runs, how="dict")
+        except Exception as e:  # noqa: BLE001
+            return "%s/%s raised %r" % (front, index, e)
+        finally:
+            logging.disable(logging.NOTSET)
+        # expectation: the direct call on the rows of each window
+        exp = {}
+        for a, b in wins:
+            rows = [i for i in range(n) if a <= secs[i] < b]
+            if rows:
+                with warnings.catch_warnings():
+                    warnings.simplefilter("ignore")
+                    fl = qm.gross_range_test(v[rows], **span)
+                for i, f in zip(rows, np.ma.filled(np.ma.masked_array(fl), 255).tolist()):
+                    exp[i] = int(f)
+        if len(lst) != 1 or lst[0].test != "gross_range_test" or lst[0].stream_id != "v":
+            return "list form: %d results" % len(lst)
+        cr = lst[0]
+        r = np.ma.masked_array(cr.results)
+        m = np.ma.getmaskarray(r)
+        if len(r) != n:
+            return "list form: %d flags for %d rows" % (len(r), n)
+        for i in range(n):
+            if i in exp and (m[i] or int(r.data[i]) != exp[i]):
+                return "list form: row %d (covered) has %s, the direct call on its window gives %d" % (i, "a masked flag" if m[i] else int(r.data[i]), exp[i])
+            if i not in exp and not m[i]:
+                return "list form: row %d is covered by no window but carries flag %d" % (i, int(r.data[i]))
+        for name, src in (("data", v), ("tinp", t)):
+            a = np.ma.masked_array(getattr(cr, name))
+            am = np.ma.getmaskarray(a)
+            for i in exp:
+                same = (not am[i]) and ((a.data[i] == src[i]) or (src.dtype.kind == "f" and np.isnan(src[i]) and np.isnan(a.data[i])))
+                if not same:
+                    return "list form: collected %s of row %d is %s, source %s" % (name, i, "masked" if am[i] else a.data[i], src[i])
+        try:
+            d = np.asarray(dct["v"]["qartod"]["gross_range_test"])
+        except KeyError:
+            return "dict form: no entry for v/qartod/gross_range_test"
+        for i in range(n):
+            want = exp.get(i, U)
+            if len(d) != n or int(d[i]) != want:
+                return "dict form: row %d has %s, expected %d" % (i, int(d[i]) if len(d) == n else "?", want)
+        return None
+
+    def bounded_checks(self, tier, rng):
+        for table in self.TABLES:
+            for w in self.WINDOWS:
+                for front, index in (("numpy", "default"), ("pandas", "default"), ("pandas", "permuted"), ("pandas", "offset")):
+                    v = {"table": table, "windows": w, "front": front, "index": index}
+                    yield ("e2e", "e2e", v, (lambda v=v: self.one(v)))
+
+    def replay_bounded(self, label, values):
+        return self.one(values)
+
+
 def cases():
-    return [Collect(how="list", axes="present"), Collect(how="dict", axes="present"), Collect(how="list", axes="absent"), Collect(how="dict", axes="absent"), CollectMulti(how="list", tests=2), CollectMulti(how="dict", tests=2), KeyLemmas()]
+    return [CollectEndToEnd(), Collect(how="list", axes="present"), Collect(how="dict", axes="present"), Collect(how="list", axes="absent"), Collect(how="dict", axes="absent"), CollectMulti(how="list", tests=2), CollectMulti(how="dict", tests=2), KeyLemmas()]
